@@ -1,30 +1,39 @@
 #!/usr/bin/env python3
-"""Seeded-breakage trial: copy /repo/beartype to a scratch dir, apply one textual
-edit, run a check against the copy (VERIF_REPO), report, and remove the copy.
+"""Seeded-breakage trial: copy /repo/beartype to a scratch dir, apply textual
+edits (or a patch file), run a check against the copy (VERIF_REPO), report, and
+remove the copy.
 
-  tools/mutant.py C02 beartype/_data/check/code/pep/datacodepep484585.py 'OLD' 'NEW' [--tier quick] [--budget 15]
+  tools/mutant.py C02 --edit FILE OLD NEW [--edit FILE OLD NEW ...] [--patch P] [--tier quick] [--budget 15]
+  (legacy)  tools/mutant.py C02 FILE OLD NEW
 """
 import argparse, os, shutil, subprocess, sys, tempfile
 ap = argparse.ArgumentParser()
-ap.add_argument('prop'); ap.add_argument('file'); ap.add_argument('old'); ap.add_argument('new')
+ap.add_argument('prop'); ap.add_argument('legacy', nargs='*')
+ap.add_argument('--edit', nargs=3, action='append', default=[])
+ap.add_argument('--patch')
 ap.add_argument('--tier', default='quick'); ap.add_argument('--budget', default='15')
-ap.add_argument('--count', type=int, default=1)
+ap.add_argument('--seed', default='0')
 a = ap.parse_args()
+if a.legacy:
+    a.edit.append(a.legacy)
 d = tempfile.mkdtemp(prefix='vmut_')
 try:
     shutil.copytree('/repo/beartype', os.path.join(d, 'beartype'), ignore=shutil.ignore_patterns('__pycache__'))
-    p = os.path.join(d, a.file)
-    s = open(p).read()
-    old = a.old.encode().decode('unicode_escape'); new = a.new.encode().decode('unicode_escape')
-    if s.count(old) < 1:
-        sys.exit(f'pattern not found in {a.file}')
-    s = s.replace(old, new, a.count)
-    open(p, 'w').write(s)
-    env = dict(os.environ, VERIF_REPO=d, VERIF_BUDGET=a.budget, VERIF_NO_EVIDENCE='1')
+    for f, old, new in a.edit:
+        p = os.path.join(d, f)
+        s = open(p).read()
+        old = old.encode().decode('unicode_escape'); new = new.encode().decode('unicode_escape')
+        if s.count(old) < 1:
+            sys.exit(f'pattern not found in {f}: {old!r}')
+        open(p, 'w').write(s.replace(old, new))
+    if a.patch:
+        r = subprocess.run(['patch', '-p1', '-d', d, '-i', os.path.abspath(a.patch)], capture_output=True, text=True)
+        if r.returncode:
+            sys.exit('patch failed: ' + r.stdout + r.stderr)
+    env = dict(os.environ, VERIF_REPO=d, VERIF_BUDGET=a.budget, VERIF_NO_EVIDENCE='1', VERIF_SEED=a.seed)
     r = subprocess.run([sys.executable, '/verif/verif.py', 'check', a.prop, '--tier', a.tier], env=env,
                        stdout=subprocess.PIPE, stderr=subprocess.STDOUT, text=True)
-    lines = r.stdout.splitlines()
-    for l in lines:
+    for l in r.stdout.splitlines():
         if l.startswith(('VIOLATION', 'INCONCLUSIVE', '  key=')) or l.startswith(a.prop):
             print(l[:400])
     print('exit', r.returncode, '=> ' + ('CAUGHT' if r.returncode == 1 else 'MISSED' if r.returncode == 0 else 'INCONCLUSIVE'))
